@@ -315,3 +315,29 @@ pub async fn leak_on_timeout<F: std::future::Future>(secs: u64, fut: F) -> Optio
         }
     }
 }
+
+/// A localhost listener on a fresh port. Unlike `net::tcp::testonly::reserve_listener` (which parks a guard socket in a
+/// process-wide table for ever) nothing outlives the returned listener, so long runs do not exhaust file descriptors.
+pub fn listen_localhost() -> (std::net::SocketAddr, tokio::net::TcpListener) {
+    let (addr, l) = listen_localhost_std();
+    (addr, tokio::net::TcpListener::from_std(l).unwrap())
+}
+
+/// Same, as a std listener (to be converted inside the runtime that will poll it).
+pub fn listen_localhost_std() -> (std::net::SocketAddr, std::net::TcpListener) {
+    // the sandbox has ~28k ephemeral ports and closed connections linger in TIME_WAIT for 60 s: wait for a free port
+    let mut tries = 0;
+    let l = loop {
+        match std::net::TcpListener::bind("127.0.0.1:0") {
+            Ok(l) => break l,
+            Err(e) if tries < 900 => {
+                let _ = e;
+                tries += 1;
+                std::thread::sleep(std::time::Duration::from_millis(100));
+            }
+            Err(e) => panic!("bind 127.0.0.1:0: {e:?}"),
+        }
+    };
+    l.set_nonblocking(true).unwrap();
+    (l.local_addr().unwrap(), l)
+}
